@@ -39,7 +39,7 @@ _ENG_NOTE = ("Trusted: Lean kernel + propext/Classical.choice/Quot.sound; the ha
 
 META['C01'] = dict(
   text=("Kernel-checked: Page.render and Page.Render (prepare + joinSink + final render) return a page only if it fits the output size (render_fits, renderPage_fits, for every template, mapping, sink, menu, browse config, "
-        "error prefix and index; hypothesis page < 4 GiB) and the page is the whole template instance plus whole menu (render_is_full_instance: no truncation). The engine's Flush is NOT covered by the bound: it appends the exit value "
+        "error prefix and index; hypothesis page < 4 GiB) and the page is the whole template instance plus whole menu (render_is_full_instance: no truncation). At the level of VM and engine: Vm.Run never changes the output size the renderer works against, for ALL programs (runLoop_out, the same walk over every instruction handler as C08's cache invariant), hence every page Vm.Render returns fits it, including the fallback to the catch node (vmRender_fits), and what Flush delivers is such a page followed by the exit value (flush_page_fits). The exit value is NOT covered by the bound: Flush appends it "
         "unchecked — negation witness flush_exit_overflow_counterexample, known finding C01-exit-suffix. Tie: render suite (1500/30000 page definitions at sizes around the natural length, all indices) + engine suite, direct oracle len(out) <= size."),
   note=_ENG_NOTE + "Open finding C01-exit-suffix is replayed every run and printed as KNOWN-FINDING.")
 META['C02'] = dict(
